@@ -9,6 +9,8 @@ impl Rng {
     fn next(&mut self) -> u64 { self.0 ^= self.0 << 13; self.0 ^= self.0 >> 7; self.0 ^= self.0 << 17; self.0 }
     fn below(&mut self, n: usize) -> usize { (self.next() % n as u64) as usize }
 }
+/// the thorough tier explores four times as many games
+fn games(n: usize) -> usize { if std::env::var("VERIF_TIER").map(|t| t == "thorough").unwrap_or(false) { 4 * n } else { n } }
 fn seed() -> u64 { std::env::var("VERIF_SEED").ok().and_then(|s| s.parse::<u64>().ok()).unwrap_or(0) ^ 0x9E37_79B9_7F4A_7C15 }
 
 const FENS: [&str; 14] = [
@@ -35,7 +37,7 @@ fn same_board(a: &Board, b: &Board) -> bool { a == b }
 fn playouts(check_c02: bool, check_c04: bool) {
     let mut rng = Rng(seed());
     for (fi, fen) in FENS.iter().enumerate() {
-        for game in 0..6 {
+        for game in 0..games(6) {
             let mut b = Board::from_fen(fen);
             let mut line: Vec<String> = vec![];
             for _ply in 0..120 {
@@ -368,7 +370,7 @@ fn c01_c03_walk(check_c01: bool, check_c03: bool) {
             b.unmake_move();
         }
         // seeded random playouts
-        for _game in 0..8 {
+        for _game in 0..games(8) {
             let mut b = Board::from_fen(fen);
             let mut r = refrules::from_fen(fen);
             let mut line: Vec<String> = vec![];
@@ -406,7 +408,7 @@ fn c07_fen_loading_matches_the_string() {
     let mut rng = Rng(seed());
     let fens: Vec<&str> = FENS.iter().chain(FENS_C01.iter()).copied().collect();
     for fen in fens.iter() {
-        for _game in 0..4 {
+        for _game in 0..games(4) {
             let mut b = Board::from_fen(fen);
             let mut r = refrules::from_fen(fen);
             for _ply in 0..80 {
